@@ -84,5 +84,8 @@ class Community(Attribute):
                         data=value
                     )
 
+        if len(community_hex) > 255:
+            return struct.pack('!B', cls.FLAG + AttributeFlag.EXTENDED_LENGTH) + struct.pack('!B', cls.ID) \
+                + struct.pack('!H', len(community_hex)) + community_hex
         return struct.pack('!B', cls.FLAG) + struct.pack('!B', cls.ID) \
             + struct.pack('!B', len(community_hex)) + community_hex
